@@ -25,6 +25,51 @@ RULE = (
 
 TARGETED = [
     (
+        "targeted/constrained-primitive-chain-declared-child-first",
+        '''
+@verification
+def matches_lower(text: str) -> bool:
+    """Check the text."""
+    pattern = f"^[a-z]*$"
+    return match(pattern, text) is not None
+
+
+@invariant(lambda self: len(self) <= 20, "At most 20 characters.")
+class Child_text(Parent_text, DBC):
+    pass
+
+
+@invariant(lambda self: matches_lower(self), "Lower-case only.")
+class Parent_text(Grand_text, DBC):
+    pass
+
+
+@invariant(lambda self: len(self) >= 5, "At least 5 characters.")
+class Grand_text(str, DBC):
+    pass
+
+
+@invariant(lambda self: len(self) >= 2, "At least two items.")
+class Other_text(Child_text, DBC):
+    pass
+
+
+class Something(DBC):
+    text: Child_text
+    more: Optional[Other_text]
+    texts: List[Child_text]
+
+    def __init__(self, text: Child_text, texts: List[Child_text], more: Optional[Other_text] = None) -> None:
+        self.text = text
+        self.texts = texts
+        self.more = more
+
+
+__version__ = "dummy"
+__xml_namespace__ = "https://dummy.com"
+''',
+    ),
+    (
         "targeted/guard-on-other-property+bytes-bound",
         '''
 @verification
